@@ -1,4 +1,5 @@
 import RpmVerif.Lemmas.Io
+import RpmVerif.Lemmas.BufWriter
 /-!
 # C14 — serialisation does not depend on how the sink or source chunks I/O
 
@@ -132,6 +133,47 @@ theorem grouping_independent (b1 b2 : List Bytes) (h : b1.flatten = b2.flatten) 
   rw [a1, a2, c1, c2, h]
   exact ⟨rfl, rfl⟩
 
+/-! ## `Package::write_file`: the same guarantee through `BufWriter` and the file
+
+`write_file` = `Package::write` into a `BufWriter` around the file, an explicit `flush()?` (fix d2dbd7b),
+then the drop of the `BufWriter` (one more `flush_buf` whose result is discarded).  The file is the inner
+sink: ANY response script (short writes, EINTR, ENOSPC / EFBIG / EIO at any byte). -/
+
+/-- the buffers `Package::write` hands to its sink, in order -/
+def bufs (p : Package) : List Bytes := (prog p).map Act.buf
+
+theorem bufs_flatten (p : Package) : (bufs p).flatten = writePackage p := by
+  rw [← concat_prog]; rfl
+
+/-- **Main theorem (`write_file`).** For EVERY package, EVERY buffer capacity and EVERY behaviour of the
+file: the bytes that reached the file are a prefix of the canonical bytes, and all of them when
+`write_file` returns `Ok`. -/
+theorem write_file_prefix_or_all (cap : Nat) (p : Package) (rs : List Resp) :
+    (writeFile cap (bufs p) rs).1 <+: writePackage p
+      ∧ ((writeFile cap (bufs p) rs).2 = .ok → (writeFile cap (bufs p) rs).1 = writePackage p) := by
+  have := writeFile_spec cap (bufs p) rs
+  rw [bufs_flatten] at this
+  exact this
+
+/-- … in general: any sequence of `write_all` calls through a `BufWriter`, flushed, dropped -/
+theorem write_file_prefix_or_all_general (cap : Nat) (ds : List Bytes) (rs : List Resp) :
+    (writeFile cap ds rs).1 <+: ds.flatten ∧ ((writeFile cap ds rs).2 = .ok → (writeFile cap ds rs).1 = ds.flatten) :=
+  writeFile_spec cap ds rs
+
+/-- **Documented negative (the code before d2dbd7b).** Without the explicit flush, a file that rejects
+every write (`/dev/full`: ENOSPC) makes `write_file` return `Ok` with nothing written, whenever the
+package is smaller than the buffer: here 3 bytes through a buffer of 8. -/
+theorem write_file_old_witness :
+    writeFileOld 8 [[1], [2, 3]] [.fail] = ([], .ok) ∧ writeFile 8 [[1], [2, 3]] [.fail, .fail] = ([], .err) := by
+  decide
+
+/-- the old code was wrong only in its result, never in the bytes: still a prefix -/
+theorem write_file_old_prefix (cap : Nat) (p : Package) (rs : List Resp) :
+    (writeFileOld cap (bufs p) rs).1 <+: writePackage p := by
+  have := writeFileOld_prefix cap (bufs p) rs
+  rw [bufs_flatten] at this
+  exact this
+
 /-! ## source side -/
 
 /-- **Main theorem (source side).** However the source splits its reads — any chunk sizes ≥ 1,
@@ -203,6 +245,17 @@ example : ScriptWF [.size 3, .intr, .size 2] := by decide
 example : (parsePackage sample).map (fun p =>
     let r := run (prog p) (respRunK .fail 50 ((prog p).map Act.buf) [.size 3, .intr, .size 2] 0)
     (r.2.1, r.1.length)) = .ok (.err, 50) := by decide +kernel
+-- write_file through a 16-byte BufWriter into a file taking 5 bytes per call: all 194 bytes, Ok
+example : (parsePackage sample).map (fun p => ((writeFile 16 (bufs p) (List.replicate 100 (.ok 5))).2,
+    (writeFile 16 (bufs p) (List.replicate 100 (.ok 5))).1 == writePackage p)) = .ok (.ok, true) := by decide +kernel
+-- … and into a file that fails after three short writes (EFBIG): error, a strict non-empty prefix on disk
+-- (short writes against partly filled buffers: 17 bytes got through before the failure)
+example : (parsePackage sample).map (fun p =>
+    let r := writeFile 16 (bufs p) ([.ok 7, .ok 7, .ok 7] ++ List.replicate 10 .fail)
+    (r.2, r.1.length, r.1 == (writePackage p).take 17)) = .ok (.err, 17, true) := by decide +kernel
+-- the whole package fits the buffer (cap 8192 > 194): a failing file is only noticed by the final flush
+example : (parsePackage sample).map (fun p => (writeFile 8192 (bufs p) [.fail, .fail], writeFileOld 8192 (bufs p) [.fail])) =
+    .ok (([], .err), ([], .ok)) := by decide +kernel
 -- source side: 1-byte reads with interrupts, then larger chunks: same package
 example : parseChunked sample ([.size 1, .intr, .size 1, .size 7, .intr] ++ List.replicate 150 (.size 1)) = parsePackage sample := by
   decide +kernel
